@@ -698,6 +698,11 @@ class FnItem:
                     break
             rty = sig[toks[arrow].end:end].strip()
             sig = sig[:toks[arrow].end] + " (%s: %s) " % (sp["ret"], rty) + sig[end:]
+        if sp.get("sig_where"):
+            # lifetime well-formedness predicates that rustc derives as implied bounds from the argument types but
+            # that Verus' transformed signature loses: appended to the where clause (type level only)
+            sig = sig.rstrip()
+            sig += ("\n    where " if " where " not in sig and "\nwhere" not in sig else ", ") + sp["sig_where"]
         pieces = []
         for a in sp.get("attrs", []):
             pieces.append(Piece(a, ("gen", "attr")))
